@@ -340,3 +340,69 @@ def mirror_model(sem, model):
             for params, v in interp.items():
                 m.pred[(w, pk, tuple(('c', c.index, c.subscript) for c in params))] = str(v)
     return m
+
+# ---------------------------------------------------------------------------
+# wall-clock seam for code that renders (writers must not depend on when they run)
+
+class WallClock:
+    """Replaces, in every loaded pytableaux module, module-level names bound to the `time`
+    module, the `datetime` module or the `datetime.datetime` / `datetime.date` classes by
+    proxies driven by a virtual clock that jumps forward on every `advance()`. A no-op when
+    the code under test does not look at the wall clock at all (the shipped writers do not)."""
+
+    def __init__(self, start=1_900_000_000.0):
+        self.now = start
+        self.patched = []
+
+    def advance(self, seconds=3661.0):
+        self.now += seconds
+
+    def __enter__(self):
+        import datetime as _dt, sys, time as _time, types
+        clock = self
+        class FakeDateTime(_dt.datetime):
+            @classmethod
+            def now(cls, tz=None):
+                return _dt.datetime.fromtimestamp(clock.now, tz)
+            @classmethod
+            def utcnow(cls):
+                return _dt.datetime.utcfromtimestamp(clock.now)
+            @classmethod
+            def today(cls):
+                return _dt.datetime.fromtimestamp(clock.now)
+        class FakeDate(_dt.date):
+            @classmethod
+            def today(cls):
+                return _dt.date.fromtimestamp(clock.now)
+        fake_dt_mod = types.SimpleNamespace(**{k: getattr(_dt, k) for k in dir(_dt) if not k.startswith('__')})
+        fake_dt_mod.datetime = FakeDateTime
+        fake_dt_mod.date = FakeDate
+        fake_time_mod = types.SimpleNamespace(**{k: getattr(_time, k) for k in dir(_time) if not k.startswith('__')})
+        fake_time_mod.time = lambda: clock.now
+        fake_time_mod.time_ns = lambda: int(clock.now * 1e9)
+        fake_time_mod.monotonic = lambda: clock.now
+        fake_time_mod.perf_counter = lambda: clock.now
+        fake_time_mod.localtime = lambda secs=None: _time.localtime(clock.now if secs is None else secs)
+        fake_time_mod.gmtime = lambda secs=None: _time.gmtime(clock.now if secs is None else secs)
+        fake_time_mod.ctime = lambda secs=None: _time.ctime(clock.now if secs is None else secs)
+        fake_time_mod.asctime = lambda t=None: _time.asctime(_time.localtime(clock.now) if t is None else t)
+        fake_time_mod.strftime = lambda fmt, t=None: _time.strftime(fmt, _time.localtime(clock.now) if t is None else t)
+        for name, mod in list(sys.modules.items()):
+            if not name.startswith('pytableaux.') or mod is None or name.startswith('pytableaux.tools.timing'):
+                continue
+            for attr, val in list(vars(mod).items()):
+                new = None
+                if val is _time: new = fake_time_mod
+                elif val is _dt: new = fake_dt_mod
+                elif val is _dt.datetime: new = FakeDateTime
+                elif val is _dt.date: new = FakeDate
+                elif val is _time.time: new = fake_time_mod.time
+                if new is not None:
+                    self.patched.append((mod, attr, val))
+                    setattr(mod, attr, new)
+        return self
+
+    def __exit__(self, *a):
+        for mod, attr, val in self.patched:
+            setattr(mod, attr, val)
+        self.patched = []
